@@ -50,6 +50,8 @@ def interior_value(cfg, rng):
             d = rng.choice(tens[-3:]) + rng.choice((-1, 0, 0, 1))
         elif r < 0.3:
             d = 0
+        elif r < 0.38:
+            d = (1 << D) - 1 - rng.choice((0, 0, 0, 1))
         elif r < 0.55:
             d = rng.getrandbits(rng.randrange(1, D))  # leading zero bits
         elif r < 0.7:
